@@ -354,9 +354,22 @@ func (e *Entry) errorf(format string, v ...interface{}) {
 
 // addError appends err to the list of errors on e if err is not nil.
 func (e *Entry) addError(err error) {
-	if err != nil {
-		e.Errors = append(e.Errors, err)
+	if err == nil {
+		return
 	}
+	// An entry holds an error once.  The errors of a grouping reach the
+	// entry that defines it and, through every use of the grouping, the
+	// entries the grouping is used in: taken each time, one error inside
+	// nested grouping definitions would be held twice as often with
+	// every level of nesting.
+	if reflect.TypeOf(err).Comparable() {
+		for _, o := range e.Errors {
+			if o == err {
+				return
+			}
+		}
+	}
+	e.Errors = append(e.Errors, err)
 }
 
 // importErrors imports all the errors from c and its children into e.
